@@ -24,9 +24,14 @@ try:
     if missing and not hard:
         # hypothesis-driven tests that fail intermittently on the clean tree too (they draw
         # multiplier == order); re-run just those to see them pass at least once
-        again = sh(os.path.join(ROOT, "tools", "baseline.py"), wt, timeout=1800)
-        missing2 = [l.split()[-1] for l in again.stdout.splitlines() if l.strip().startswith("MISSING")]
-        hard = [m for m in missing2 if m in missing]
+        hard = list(missing)
+        for _ in range(4):
+            shutil.rmtree(os.path.join(wt, ".hypothesis"), ignore_errors=True)
+            again = sh(os.path.join(ROOT, "tools", "baseline.py"), wt, timeout=1800)
+            missing2 = [l.split()[-1] for l in again.stdout.splitlines() if l.strip().startswith("MISSING")]
+            hard = [m for m in hard if m in missing2]
+            if not hard:
+                break
         suite_ok = not hard
     else:
         suite_ok = suite.returncode == 0
